@@ -1328,7 +1328,9 @@ class ItemSpaceParent(ItemFactoryImpl, BaseNamespaceReferrer, HasFormula):
         return key in self.param_spaces
 
     def get_value_from_key(self, key):
-        return self.param_spaces[key].interface
+        # as for cells: evaluate, the ItemSpace may have been discarded
+        return self.system.executor.eval_node(
+            key_to_node(self, key)).interface
 
 
 _base_space_impl_base = (
